@@ -167,7 +167,7 @@ Elems(tv, shape, start, step) ==
 (* segment vocabulary is a table.                                          *)
 
 Upper == [a |-> "A", A |-> "A", grp |-> "GRP", b |-> "B", c |-> "C", sub |-> "SUB", d |-> "D",
-          grp_b |-> "GRP_B", v |-> "V", Size2 |-> "SIZE2", zz |-> "ZZ"]
+          grp_b |-> "GRP_B", v |-> "V", Size2 |-> "SIZE2", zz |-> "ZZ", s |-> "S"]
 
 RECURSIVE Join(_, _)
 Join(segs, sep) == IF Len(segs) = 0 THEN "" ELSE IF Len(segs) = 1 THEN segs[1]
